@@ -6,7 +6,7 @@
    program), [p] = any state left by any earlier requests, [q] = clock, hash, backend behaviour. *)
 From Coq Require Import List ZArith NArith Bool Arith.
 From Falco Require Import Base.Res Base.SMBase Gen.SMConst Gen.ObsEdges Gen.SMKnown Model.SM Model.SMDoc
-  Proofs.SMBasics Proofs.SMPath Proofs.SMCache Proofs.SMReport Proofs.SMHistory Proofs.SMEdges Proofs.SMSwitch Proofs.SMExamples Gen.SMSwitch.
+  Proofs.SMBasics Proofs.SMPath Proofs.SMCache Proofs.SMReport Proofs.SMHistory Proofs.SMEdges Proofs.SMSwitch Proofs.SMExamples Proofs.SMStatus Gen.SMSwitch.
 Import ListNotations.
 
 (* the flow of every request is a path of the documented machine and starts at vcl_recv with
@@ -105,6 +105,35 @@ Theorem C06_report_faithful : forall orc p q rep p',
   (r_error rep = false -> r_xcache rep <> None).
 Proof. exact report_faithful. Qed.
 
+(* the same for EVERY request of EVERY history (any state left by the earlier requests): cached / X-Cache /
+   X-Cache-Hits say which branch the flow took last - HIT, MISS or a pass from vcl_recv, also when the request
+   restarted or ended through vcl_error (examples: Proofs/SMStatus.v ex_error_status, ex_error_after_restarts) *)
+Theorem C06_history_report_faithful : forall h p rs p',
+  Forall (fun oq => q_backend (snd oq) = true) h ->
+  run_history h p = OK (rs, p') -> Forall faithful rs.
+Proof. exact history_report_faithful. Qed.
+
+(* every request of every history that reports no error ran vcl_log exactly once and last; the endings with a
+   reported error (restart beyond the limit, error statement outside its scopes, failure in vcl_error) run no
+   vcl_log: ex_error_endings *)
+Theorem C06_history_log_last_once : forall h p rs p',
+  run_history h p = OK (rs, p') ->
+  Forall (fun r => r_error r = false ->
+                   (exists tr k a, r_trace r = tr ++ [(DLog, k, a)] /\ doc_next DLog a = Some TEnd) /\
+                   count_log (r_trace r) = 1) rs.
+Proof. exact history_log_last_once. Qed.
+
+(* `error <code>` then deliver: the status the client sees is reported for the synthetic object of vcl_error
+   only, and that object carries obj.status as the last `error <code>;` that passed its scope guard left it
+   (any code, also < 200 or >= 600; 500 when no code was given) *)
+Theorem C06_status_only_after_error : forall orc p q rep p' k,
+  run_request orc p q = OK (rep, p') -> r_status rep = Some k -> existsb is_error (r_trace rep) = true.
+Proof. exact status_only_after_error. Qed.
+
+Theorem C06_error_object_status : forall orc q c p c' p' nx,
+  process_error orc q c p = (c', p', nx) -> nx <> Goto NRecv -> c_errobj c' = Some (c_objstatus c).
+Proof. exact error_object_status. Qed.
+
 (* cache, rate counter and penalty box after request k are the inputs of request k+1 *)
 Theorem C06_persist : forall h1 orc q h2 p rs p',
   run_history (h1 ++ (orc, q) :: h2) p = OK (rs, p') ->
@@ -183,6 +212,10 @@ Print Assumptions C06_fetch_stores.
 Print Assumptions C06_fetch_does_not_store.
 Print Assumptions C06_no_miss_no_new_keys.
 Print Assumptions C06_report_faithful.
+Print Assumptions C06_history_report_faithful.
+Print Assumptions C06_history_log_last_once.
+Print Assumptions C06_status_only_after_error.
+Print Assumptions C06_error_object_status.
 Print Assumptions C06_persist.
 Print Assumptions C06_obs_cells_complete.
 Print Assumptions C06_obs_edges_eq_doc.
